@@ -30,6 +30,8 @@ LEAVES = [
     ("List", [("Int", "1"), ("Int", "2")]),
     ("CLambda", ("Id", "items", ()), "Any", ("Lambda", ("Id", "i", ()), ("Compare", "Eq", gen.path_shape(1, "i", ["k"]), ("Int", "1")))),
     ("Str", "it's"), ("Bool", "true"), ("Null",), ("Id", "notes", ()), ("Id", "f", ("ns",)),
+    ("Call", ("Id", "f", ("my",)), [("List", [("Id", "p", ()), ("Int", "2")])]),     # ONE argument that is a list
+    ("Call", ("Id", "g", ("my",)), [("List", [("Id", "p", ())])]),
 ]
 INLIST = ("List", [("Int", "1"), ("Id", "z", ())])
 
